@@ -9,6 +9,11 @@
      x/cdp/keeper/draw.go            AddPrincipal, RepayPrincipal;  deposit.go WithdrawCollateral
      x/hard, x/savings, x/swap, x/earn keeper/withdraw.go  Withdraw
 
+   and of the governance actions that change who the designated principals are
+   (section "Changes of the designated principals": oracle lists, asset owners,
+   deputies through x/params Subspace.Update; committee member lists and
+   deletions through x/committee/proposal_handler.go).
+
    Addresses, denoms, market / committee / pool ids are small indexes (nat).
    Checks of a handler that do not concern authorisation and are expensive to
    model (collateral ratios, supply limits, swap id freshness, LTV, vault share
@@ -221,6 +226,10 @@ Definition set_sav s v := mkState (markets s) (prices s) (assets s) (iss_supply 
 Definition set_swap s p sh := mkState (markets s) (prices s) (assets s) (iss_supply s) (iss_bal s) (b3assets s) (swaps s) (committees s) (proposals s) (next_pid s) (votes s) (cparams s) (cdps s) (ncdp s) (cdp_deps s) (hard_dep s) (sav_dep s) p sh (earn_shares s) (accs s).
 Definition set_accs s v := mkState (markets s) (prices s) (assets s) (iss_supply s) (iss_bal s) (b3assets s) (swaps s) (committees s) (proposals s) (next_pid s) (votes s) (cparams s) (cdps s) (ncdp s) (cdp_deps s) (hard_dep s) (sav_dep s) (swap_pools s) (swap_shares s) (earn_shares s) v.
 Definition set_earn s v := mkState (markets s) (prices s) (assets s) (iss_supply s) (iss_bal s) (b3assets s) (swaps s) (committees s) (proposals s) (next_pid s) (votes s) (cparams s) (cdps s) (ncdp s) (cdp_deps s) (hard_dep s) (sav_dep s) (swap_pools s) (swap_shares s) v (accs s).
+
+Definition set_markets s v := mkState v (prices s) (assets s) (iss_supply s) (iss_bal s) (b3assets s) (swaps s) (committees s) (proposals s) (next_pid s) (votes s) (cparams s) (cdps s) (ncdp s) (cdp_deps s) (hard_dep s) (sav_dep s) (swap_pools s) (swap_shares s) (earn_shares s) (accs s).
+Definition set_b3 s v := mkState (markets s) (prices s) (assets s) (iss_supply s) (iss_bal s) v (swaps s) (committees s) (proposals s) (next_pid s) (votes s) (cparams s) (cdps s) (ncdp s) (cdp_deps s) (hard_dep s) (sav_dep s) (swap_pools s) (swap_shares s) (earn_shares s) (accs s).
+Definition set_coms s c p v := mkState (markets s) (prices s) (assets s) (iss_supply s) (iss_bal s) (b3assets s) (swaps s) c p (next_pid s) v (cparams s) (cdps s) (ncdp s) (cdp_deps s) (hard_dep s) (sav_dep s) (swap_pools s) (swap_shares s) (earn_shares s) (accs s).
 
 Definition mem (a : nat) (l : list nat) : bool := existsb (Nat.eqb a) l.
 
@@ -710,6 +719,99 @@ Definition authorised (e : env) (s : state) (o : op) : bool :=
   | EarnWithdraw a _ _ _ _ _ _ => has_rec (nden e) (earn_shares s a)
   end.
 
+(** * Changes of the designated principals
+
+   The lists the guards read are state: governance changes them in the middle
+   of a history.  Each change goes through the handler the gov router calls:
+
+     pricefeed / issuance / bep3: x/params ParameterChangeProposal -> Subspace.Update
+        (the new value is validated by the module's param validator, then stored)
+     committee: x/committee/proposal_handler.go handleCommitteeChangeProposal
+        (the committee's ongoing proposals are closed with their votes, then
+        SetCommittee; an unknown id creates the committee) and
+        handleCommitteeDeleteProposal (proposals closed, DeleteCommittee)
+
+   The guards above read [markets], [assets], [b3assets], [committees] of the
+   state they run in: nothing is remembered from an earlier state. *)
+
+Fixpoint nodup_b (l : list nat) : bool :=
+  match l with
+  | [] => true
+  | x :: r => negb (mem x r) && nodup_b r
+  end.
+
+Inductive admin :=
+| SetOracles (m : nat) (l : list nat)     (* the oracle list of market m becomes l *)
+| SetOwner (d a : nat)                    (* the owner of issuance asset d becomes a *)
+| SetDeputy (d a : nat)                   (* the bep3 deputy of asset d becomes a *)
+| SetMembers (c : nat) (l : list nat)     (* CommitteeChangeProposal: the members of committee c become l *)
+| DelCommittee (c : nat).                 (* CommitteeDeleteProposal *)
+
+(* pricefeed Market.Validate refuses a duplicated oracle; a market id that is
+   not in the parameters leaves them as they are *)
+Definition set_oracles (s : state) (m : nat) (l : list nat) : outcome state coins :=
+  if negb (nodup_b l) then Err
+  else Ok (set_markets s (map (fun p => if Nat.eqb (fst p) m then (fst p, l) else p) (markets s))) [].
+
+Definition with_owner (x : asset) (a : nat) : asset :=
+  mkAsset (as_denom x) a (as_paused x) (as_blockable x) (as_blocked x) (as_rl_active x) (as_rl_limit x).
+
+(* issuance Asset.Validate: "asset owner cannot be blocked" *)
+Definition set_owner (s : state) (d a : nat) : outcome state coins :=
+  match find_asset s d with
+  | None => Ok s []
+  | Some x => if mem a (as_blocked x) then Err else Ok (put_asset s (with_owner x a)) []
+  end.
+
+Definition set_deputy (s : state) (d a : nat) : outcome state coins :=
+  Ok (set_b3 s (map (fun x => if Nat.eqb (b3_denom x) d then mkB3 (b3_denom x) a else x) (b3assets s))) [].
+
+(* keeper CloseProposal -> DeleteProposalAndVotes, for every proposal of committee c *)
+Definition closed_props (s : state) (c : nat) : nat -> option (nat * Z) :=
+  fun pid => match proposals s pid with
+             | Some (c', dl) => if Nat.eqb c' c then None else Some (c', dl)
+             | None => None
+             end.
+Definition closed_votes (s : state) (c : nat) : nat -> nat -> option nat :=
+  fun pid a => match proposals s pid with
+               | Some (c', _) => if Nat.eqb c' c then None else votes s pid a
+               | None => votes s pid a
+               end.
+
+(* BaseCommittee.Validate: "committee must have members", no duplicate members.
+   The committee keeps its kind; a new id gives a member committee. *)
+Definition set_members (s : state) (c : nat) (l : list nat) : outcome state coins :=
+  if (match l with [] => true | _ => false end) || negb (nodup_b l) then Err
+  else
+    let coms := match find_com s c with
+                | Some _ => map (fun y => if Nat.eqb (cm_id y) c then mkCom (cm_id y) l (cm_member_type y) else y) (committees s)
+                | None => committees s ++ [mkCom c l true]
+                end in
+    Ok (set_coms s coms (closed_props s c) (closed_votes s c)) [].
+
+Definition del_committee (s : state) (c : nat) : outcome state coins :=
+  Ok (set_coms s (filter (fun y => negb (Nat.eqb (cm_id y) c)) (committees s)) (closed_props s c) (closed_votes s c)) [].
+
+Definition admin_step (e : env) (s : state) (a : admin) : outcome state coins :=
+  match a with
+  | SetOracles m l => set_oracles s m l
+  | SetOwner d x => set_owner s d x
+  | SetDeputy d x => set_deputy s d x
+  | SetMembers c l => set_members s c l
+  | DelCommittee c => del_committee s c
+  end.
+
+(* histories in which messages and changes of the principals alternate freely *)
+Inductive hop := Msg (o : op) | Adm (a : admin).
+
+Definition hstep (e : env) (s : state) (h : hop) : outcome state coins :=
+  match h with Msg o => step e s o | Adm a => admin_step e s a end.
+
+Definition hstep' (e : env) (s : state) (h : hop) : state :=
+  match hstep e s h with Ok s' _ => s' | _ => s end.
+
+Definition hrun (e : env) (s : state) (hs : list hop) : state := fold_left (hstep' e) hs s.
+
 (** * Invariant (boolean form) *)
 
 Definition swap_ok (s : state) (w : swaprec) : bool :=
@@ -805,18 +907,63 @@ Definition attempts_ok (e : env) (s : state) (o : op) (l : list nat) : bool :=
   forallb (fun ac => rclass_eqb (class_of (step e s (with_signer o (fst ac) (rest_of (snd ac))))) (expected (snd ac)))
           (combine (seq 0 (length l)) l).
 
-Fixpoint first_mismatch (e : env) (s : state) (h : list probe) (i : nat) : option nat :=
+(* the vote half of the invariant: it survives changes of the member lists
+   because a change closes the committee's proposals *)
+Definition vinv_b (e : env) (s : state) : bool :=
+  forallb (fun pid => forallb (vote_ok e s pid) (seq 0 (nacc e))) (seq 0 (next_pid s)).
+
+(* the swap half, for the swap a committed message has just recorded: its
+   direction was decided by the deputy of the state the message ran in (a later
+   change of the deputy does not re-label the swaps already recorded) *)
+Definition new_swap_ok (s s' : state) : bool :=
+  match swaps s' with w :: _ => swap_ok s w | [] => true end.
+
+Definition commit_inv (e : env) (s s' : state) (o : op) : bool :=
+  vinv_b e s' && match o with CreateSwap _ _ _ _ => new_swap_ok s s' | _ => true end.
+
+(* the component a change of principals writes *)
+Definition max_com : nat := 8.
+Definition aproject (e : env) (s : state) (a : admin) : list Z :=
+  match a with
+  | SetOracles _ _ =>
+      flat_map (fun mk => n2z (fst mk) :: n2z (length (snd mk)) :: map n2z (snd mk)) (markets s)
+  | SetOwner _ _ => project e s (SetPause 0 0 false)
+  | SetDeputy _ _ =>
+      flat_map (fun x => [n2z (b3_denom x); n2z (b3_deputy x)]) (b3assets s)
+  | SetMembers _ _ | DelCommittee _ =>
+      flat_map (fun c => match find_com s c with
+                         | Some x => n2z c :: b2z (cm_member_type x) :: n2z (length (cm_members x)) :: map n2z (cm_members x)
+                         | None => [] end) (seq 0 max_com)
+      ++ project e s (Vote 0 0 0)
+  end.
+
+(* one step of a recorded history: a probed message, or a change of principals
+   with the class the implementation returned (0 applied, 1 refused) and the
+   projection of the written component afterwards *)
+Inductive item :=
+| IProbe (p : probe)
+| IAdmin (a : admin) (code : nat) (after : list Z).
+
+Fixpoint first_mismatch (e : env) (s : state) (h : list item) (i : nat) : option nat :=
   match h with
   | [] => None
-  | p :: r =>
+  | IProbe p :: r =>
       if negb (attempts_ok e s (p_op p) (p_attempts p)) then Some i
       else if negb (p_commit p) then first_mismatch e s r (S i)
       else match step e s (p_op p) with
            | Ok s' _ =>
-               if list_eqb Z.eqb (project e s' (p_op p)) (p_after p) && inv_b e s'
+               if list_eqb Z.eqb (project e s' (p_op p)) (p_after p) && commit_inv e s s' (p_op p)
                then first_mismatch e s' r (S i) else Some i
            | _ => Some i
            end
+  | IAdmin a code after :: r =>
+      match admin_step e s a with
+      | Ok s' _ =>
+          if Nat.eqb code 0 && list_eqb Z.eqb (aproject e s' a) after && vinv_b e s'
+          then first_mismatch e s' r (S i) else Some i
+      | Err => if Nat.eqb code 1 then first_mismatch e s r (S i) else Some i
+      | Panic => Some i
+      end
   end.
 
 (* list-based construction of environments and states from harness data *)
@@ -855,12 +1002,12 @@ Definition mk_state
 Record history := mkHist {
   h_env : env;
   h_init : state;
-  h_probes : list probe
+  h_items : list item
 }.
 
 Definition check_history (h : history) : option nat :=
   if inv_b (h_env h) (h_init h)
-  then first_mismatch (h_env h) (h_init h) (h_probes h) 0
+  then first_mismatch (h_env h) (h_init h) (h_items h) 0
   else Some 0%nat.
 
 Fixpoint mismatches_from (i : nat) (hs : list history) : list (nat * nat) :=
